@@ -49,13 +49,6 @@ Proof. unfold in_H in HH. apply andb_prop in HH. tauto. Qed.
 Lemma HR r : In r G -> rule_in_H G extras r = true.
 Proof. unfold in_H in HH. apply andb_prop in HH. destruct HH as [_ H]. rewrite forallb_forall in H. apply H. Qed.
 
-Lemma not_fixed_rule n : has_orule G n = true -> is_fixed n = false.
-Proof.
-  intros H. destruct (has_orule_first G n H) as (r & Er & <- & _).
-  pose proof (HR r (nth_error_In _ _ Er)) as X. unfold rule_in_H in X.
-  repeat (apply andb_prop in X; destruct X as [X ?]). destruct (is_fixed (oname r)); [discriminate|reflexivity].
-Qed.
-
 (* ---------- the closure table of the generated module ---------- *)
 Lemma Eg_skip : Eg (skip_closure G) = Some (gen_skip G).
 Proof.
@@ -106,20 +99,16 @@ Lemma sim_call A n x : Calls n -> simgv A (S n) (gen_call G U x) (vm_call G ur x
 Proof.
   intros HCalls. unfold gen_call.
   destruct (has_orule G x) eqn:Ho.
-  - (* a user rule; its name is not hard-coded in the VM *)
-    pose proof (not_fixed_rule x Ho) as Nf. destruct (has_orule_first G x Ho) as (r & Er & _).
-    assert (Ev' : vm_call G ur x = PCall (orule_id G x)).
-    { unfold vm_call. unfold is_fixed, fixed_builtins in Nf. cbn [bindex] in Nf.
-      repeat match goal with |- (if str_eqb x ?b then _ else _) = _ =>
-        rewrite (str_eqb_sym x b); destruct (str_eqb b x); [discriminate Nf|] end.
-      rewrite Ho. reflexivity. }
+  - (* a user rule: both back-ends look the user's rules up first (shadowing of built-ins included) *)
+    destruct (has_orule_first G x Ho) as (r & Er & _).
+    assert (Ev' : vm_call G ur x = PCall (orule_id G x)) by (unfold vm_call; rewrite Ho; reflexivity).
     rewrite Ev'. eapply cong_call; [apply gen_env_at; exact Er|apply vm_env_at; exact Er|].
     destruct A; [apply sim_weaken|]; apply (HCalls _ _ Er).
-  - unfold vm_call, prim_range, fixed_builtins, rng. cbn [bindex].
+  - unfold vm_call, prim_range, fixed_builtins, rng. rewrite Ho. cbn [bindex].
     repeat match goal with |- simgv _ _ _ (if str_eqb x ?b then _ else _) =>
       rewrite (str_eqb_sym x b); destruct (str_eqb b x);
       [eapply cong_call_left'; [apply Eg_fixed; reflexivity|cbn [snd]; closed]|] end.
-    rewrite Ho. pose proof (ulookup_uindex U x 0) as X. fold ur in X.
+    pose proof (ulookup_uindex U x 0) as X. fold ur in X.
     destruct (ur x) as [rs|], (uindex U x 0) as [j|]; try contradiction.
     + destruct X as (_ & y & Hy). rewrite Nat.sub_0_r in Hy.
       eapply cong_call_left'; [apply Eg_unicode; exact Hy|apply sim_prim].
@@ -127,13 +116,8 @@ Proof.
 Qed.
 
 (* ---------- the implicit skip ---------- *)
-Lemma vm_call_special x : is_fixed x = false -> has_orule G x = true -> vm_call G ur x = PCall (orule_id G x).
-Proof.
-  intros Nf Ho. unfold vm_call. unfold is_fixed, fixed_builtins in Nf. cbn [bindex] in Nf.
-  repeat match goal with |- (if str_eqb x ?b then _ else _) = _ =>
-    rewrite (str_eqb_sym x b); destruct (str_eqb b x); [discriminate Nf|] end.
-  rewrite Ho. reflexivity.
-Qed.
+Lemma vm_call_special x : has_orule G x = true -> vm_call G ur x = PCall (orule_id G x).
+Proof. intros Ho. unfold vm_call. rewrite Ho. reflexivity. Qed.
 
 Lemma sim_rule_call A n x : Calls n -> has_orule G x = true -> simgv A (S n) (PCall (orule_id G x)) (PCall (orule_id G x)).
 Proof.
@@ -147,7 +131,7 @@ Proof.
   intros HCalls. eapply cong_call_left'; [apply Eg_skip|].
   unfold gen_skip, vm_skip.
   destruct (has_orule G (nm "WHITESPACE")) eqn:Hw, (has_orule G (nm "COMMENT")) eqn:Hc;
-    rewrite ?(vm_call_special (nm "WHITESPACE") eq_refl Hw), ?(vm_call_special (nm "COMMENT") eq_refl Hc).
+    rewrite ?(vm_call_special (nm "WHITESPACE") Hw), ?(vm_call_special (nm "COMMENT") Hc).
   - apply cong_ifna'; [|apply sim_prim]. apply cong_seq', cong_then'; [apply cong_rep', sim_rule_call; auto|].
     apply cong_rep', cong_seq', cong_then'; [apply sim_rule_call; auto|apply cong_rep', sim_rule_call; auto].
   - apply cong_ifna'; [|apply sim_prim]. apply cong_rep', sim_rule_call; auto.
@@ -317,8 +301,7 @@ Lemma rule_sim n : Calls n -> Calls (S n).
 Proof.
   intros HCalls k r Er.
   pose proof (HR r (nth_error_In _ _ Er)) as X. unfold rule_in_H in X.
-  apply andb_prop in X. destruct X as [X X4]. apply andb_prop in X. destruct X as [X X3].
-  apply andb_prop in X. destruct X as [_ X2].
+  apply andb_prop in X. destruct X as [X X4]. apply andb_prop in X. destruct X as [X2 X3].
   assert (Tg : subexprs_ok tag_ok (oexpr_of r) = true).
   { eapply subexprs_ok_impl; [|exact X3]. intros e. destruct extras; auto. destruct e; cbn; try discriminate; auto. }
   assert (Pn : simgv false (S n) (gx (oexpr_of r)) (vx (oexpr_of r))).
